@@ -56,6 +56,23 @@ Theorem C16_retained_unchanged_families : forall (s : store) head e k rot m f i,
 Proof. exact plan_retained_unchanged_fam. Qed.
 Print Assumptions C16_retained_unchanged_families.
 
+(* aggregated bloom filters: pruning keeps every persisted filter whose window contains a retained
+   block (the retained-window set = windows intersecting [e, head]), the floor's own window included *)
+Theorem C16_bloom_windows_retained : forall (s : store) head e k rot m w,
+  window_retained e w -> interrupted s (prune_plan s head e k rot) m Bloom w = s Bloom w.
+Proof. exact bloom_windows_retained. Qed.
+Print Assumptions C16_bloom_windows_retained.
+
+Theorem C16_floor_window_retained : forall e, window_retained e (wf e).
+Proof. exact floor_window_retained. Qed.
+Print Assumptions C16_floor_window_retained.
+
+Example bloom_floor_window_example :
+  let u := full_store 16400 in
+  let s := apply_batches u (prune_batches 0 8292 8292 (fun _ => false)) in
+  (u Bloom 0, u Bloom 8192, u Bloom 16384, s Bloom 0, s Bloom 8192) = (true, true, false, false, true).
+Proof. vm_compute. reflexivity. Qed.
+
 (* ---- historical state from e-1 upwards ---- *)
 (* old-value logs ("first log above n") *)
 Theorem C16_state_from_floor : forall (s : store) o e k rot m lg hv n,
